@@ -141,6 +141,17 @@ where
     map(parser, Input::into_inner)
 }
 
+/// Parses a keyword that is made up of two words, such as `BIT STRING`.
+///
+/// The words are lexical items of their own (X.680 12.38), so they can be separated by any
+/// white space and comments, not only by a single space character.
+pub fn keyword<'a>(
+    words: &'static str,
+) -> impl Parser<Input<'a>, Output = Input<'a>, Error = ErrorTree<'a>> {
+    let (first, second) = words.split_once(' ').unwrap_or((words, ""));
+    recognize(pair(tag(first), skip_ws_and_comments(tag(second))))
+}
+
 pub fn skip_ws<'a, F>(inner: F) -> impl Parser<Input<'a>, Output = F::Output, Error = F::Error>
 where
     F: Parser<Input<'a>>,
